@@ -141,8 +141,23 @@ fn put_u64(v: &mut Vec<u8>, x: u64) {
 	v.extend_from_slice(&x.to_be_bytes());
 }
 
+/// Sections of the file whose raw (uncompressed) bytes can be patched before they are packed
+#[derive(Clone, Copy, Debug, PartialEq, Eq)]
+pub enum Section {
+	TileIndex,
+	BlockIndex,
+	Header,
+	Meta,
+}
+
 /// Encode a tile set (non-empty payloads only) as versatiles v02.
 pub fn encode(set: &TileSet, layout: &Layout) -> Vec<u8> {
+	encode_patched(set, layout, &mut |_, _| {})
+}
+
+/// Like `encode`, but `patch` may alter the raw bytes of every section before compression
+/// (used to build corrupted files whose corruption lies behind the compression layer).
+pub fn encode_patched(set: &TileSet, layout: &Layout, patch: &mut dyn FnMut(Section, &mut Vec<u8>)) -> Vec<u8> {
 	use crate::model::Mix;
 	let mut mix = Mix::new(layout.seed as u64 ^ 0x7654);
 	let mut file = vec![0u8; 66];
@@ -150,7 +165,9 @@ pub fn encode(set: &TileSet, layout: &Layout) -> Vec<u8> {
 	let mut meta = (0u64, 0u64);
 	if layout.with_meta {
 		if let Some(m) = &set.meta {
-			let c = util::compress(m.as_bytes(), set.comp);
+			let mut raw_meta = m.as_bytes().to_vec();
+			patch(Section::Meta, &mut raw_meta);
+			let c = util::compress(&raw_meta, set.comp);
 			meta = (file.len() as u64, c.len() as u64);
 			file.extend_from_slice(&c);
 		}
@@ -231,6 +248,7 @@ pub fn encode(set: &TileSet, layout: &Layout) -> Vec<u8> {
 			put_u64(&mut tindex, *o);
 			put_u32(&mut tindex, *l);
 		}
+		patch(Section::TileIndex, &mut tindex);
 		let tindex_c = util::brotli_c(&tindex);
 		file.extend_from_slice(&tindex_c);
 		let mut rec = vec![z];
@@ -248,7 +266,8 @@ pub fn encode(set: &TileSet, layout: &Layout) -> Vec<u8> {
 			index_records.swap(i, mix.below(i as u64 + 1) as usize);
 		}
 	}
-	let index: Vec<u8> = index_records.concat();
+	let mut index: Vec<u8> = index_records.concat();
+	patch(Section::BlockIndex, &mut index);
 	let index_c = util::brotli_c(&index);
 	let blocks_range = (file.len() as u64, index_c.len() as u64);
 	file.extend_from_slice(&index_c);
@@ -278,6 +297,8 @@ pub fn encode(set: &TileSet, layout: &Layout) -> Vec<u8> {
 	put_u64(&mut head, blocks_range.0);
 	put_u64(&mut head, blocks_range.1);
 	assert_eq!(head.len(), 66);
+	patch(Section::Header, &mut head);
+	head.resize(66, 0);
 	file[..66].copy_from_slice(&head);
 	file
 }
